@@ -1393,6 +1393,24 @@ fn main() {
             println!("drawn={}", n);
             println!("duplicates={}", n - all.len());
         }
+        // manifest_switch_ops : the mutating file operations of one log_and_apply that has to start a new manifest, in order
+        "manifest_switch_ops" => {
+            let fs = rdbv::faultfs::FaultFs::new();
+            let o = v::options_with(std::sync::Arc::new(fs.clone()), 4096);
+            let f2 = fs.clone();
+            let (ok, installed) = v::vset_log_and_apply_edit(o, true, 77, &move || { let _ = f2.take_log(); });
+            let ops: Vec<String> = fs.take_log().iter().map(|l| {
+                let mut it = l.splitn(2, ' ');
+                let op = it.next().unwrap_or("");
+                let p = it.next().unwrap_or("");
+                let name = p.rsplit('/').next().unwrap_or(p);
+                let kind = if name.starts_with("MANIFEST") { "manifest" } else if name == "CURRENT" { "CURRENT" } else if name.ends_with("dbtemp") || name.ends_with(".dbtmp") { "temp" } else { name };
+                format!("{}:{}", op, kind)
+            }).collect();
+            println!("result={}", if ok { "Ok" } else { "Err" });
+            println!("installed={}", installed);
+            println!("ops={}", ops.join(","));
+        }
         "vs_recover" => {
             // a database is created, written and closed; a fresh version set recovers from its files
             use raindb::WriteOptions;
